@@ -115,6 +115,65 @@ theorem execCmdsStates_spec : ∀ (cmds : List Cmd) (r : Runner), ∀ r' ∈ exe
 
 /-! ### the micro-states are the same LTS -/
 
+theorem execCmds_clear_aux : ∀ (cmds : List Cmd) (st : State) (buf : List Tick) (heap : List Timer) (seq : Nat)
+    (ip : Bool) (R running : List Worker) (stream : List Pub) (log : List (Tick × Int)) (mailbox : List Tick)
+    (now : Int), cmds.any Cmd.stopsWorkersFirst = true →
+    execCmds (Runner.mk st buf heap seq ip R stream log none mailbox now) cmds =
+      execCmds (Runner.mk st buf heap seq ip running stream log none mailbox now) cmds
+  | [], _, _, _, _, _, _, _, _, _, _, _, h => by simp at h
+  | c :: cs, st, buf, heap, seq, ip, R, running, stream, log, mailbox, now, h => by
+    simp only [List.any_cons, Bool.or_eq_true] at h
+    cases c with
+    | halt k => simp [execCmds, execCmd, Runner.finish]
+    | failWorkflow s x => simp [execCmds, execCmd, Runner.finish]
+    | completeRun p => simp [execCmds, execCmd, Runner.finish]
+    | crash => simp [execCmds, execCmd, Runner.finish]
+    | runWorker s ev w =>
+      have hcs : cs.any Cmd.stopsWorkersFirst = true := by simpa [Cmd.stopsWorkersFirst] using h
+      simp only [execCmds, execCmd, Option.isSome_none, Bool.false_eq_true, ↓reduceIte]
+      exact execCmds_clear_aux cs _ _ _ _ _ _ _ _ _ _ _ hcs
+    | publish p =>
+      have hcs : cs.any Cmd.stopsWorkersFirst = true := by simpa [Cmd.stopsWorkersFirst] using h
+      simp only [execCmds, execCmd, Option.isSome_none, Bool.false_eq_true, ↓reduceIte]
+      exact execCmds_clear_aux cs _ _ _ _ _ _ _ _ _ _ _ hcs
+    | scheduleWaiterTimeout s w t =>
+      have hcs : cs.any Cmd.stopsWorkersFirst = true := by simpa [Cmd.stopsWorkersFirst] using h
+      simp only [execCmds, execCmd, Runner.push, Option.isSome_none, Bool.false_eq_true, ↓reduceIte]
+      exact execCmds_clear_aux cs _ _ _ _ _ _ _ _ _ _ _ hcs
+    | scheduleIdleCheck =>
+      have hcs : cs.any Cmd.stopsWorkersFirst = true := by simpa [Cmd.stopsWorkersFirst] using h
+      simp only [execCmds, execCmd]
+      cases ip with
+      | true =>
+        simp only [↓reduceIte, Option.isSome_none, Bool.false_eq_true]
+        exact execCmds_clear_aux cs _ _ _ _ _ _ _ _ _ _ _ hcs
+      | false =>
+        simp only [Bool.false_eq_true, ↓reduceIte, Option.isSome_none]
+        exact execCmds_clear_aux cs _ _ _ _ _ _ _ _ _ _ _ hcs
+    | queueEvent att step delay =>
+      have hcs : cs.any Cmd.stopsWorkersFirst = true := by simpa [Cmd.stopsWorkersFirst] using h
+      simp only [execCmds, execCmd]
+      cases delay with
+      | none =>
+        simp only [Option.isSome_none, Bool.false_eq_true, ↓reduceIte]
+        exact execCmds_clear_aux cs _ _ _ _ _ _ _ _ _ _ _ hcs
+      | some d =>
+        simp only
+        by_cases hd : d > 0
+        · simp only [hd, ↓reduceIte, Runner.push, Option.isSome_none, Bool.false_eq_true]
+          exact execCmds_clear_aux cs _ _ _ _ _ _ _ _ _ _ _ hcs
+        · simp only [hd, ↓reduceIte, Option.isSome_none, Bool.false_eq_true]
+          exact execCmds_clear_aux cs _ _ _ _ _ _ _ _ _ _ _ hcs
+
+/-- when a halting or failing command is among them, the commands end with every worker stopped whatever the
+live tasks were at the start -/
+theorem execCmds_clear (cmds : List Cmd) (a : Runner) (R : List Worker) (ha : a.outcome = none)
+    (h : cmds.any Cmd.stopsWorkersFirst = true) : execCmds { a with running := R } cmds = execCmds a cmds := by
+  obtain ⟨st, buf, heap, seq, ip, running, stream, log, outcome, mailbox, now⟩ := a
+  simp only at ha
+  subst ha
+  exact execCmds_clear_aux cmds st buf heap seq ip R running stream log mailbox now h
+
 theorem microStates_last (cfg : Cfg) (pol : Policy) (r : Runner) (a : Act) :
     (r.microStates cfg pol a).getLast? = some (r.step cfg pol a) := by
   unfold Runner.microStates Runner.step
@@ -129,7 +188,14 @@ theorem microStates_last (cfg : Cfg) (pol : Policy) (r : Runner) (a : Act) :
         simp only
         split
         · rfl
-        · exact execCmdsStates_last _ _
+        · split
+          · rename_i hstop
+            rw [execCmdsStates_last]
+            congr 1
+            exact execCmds_clear _
+              { r with buf := _, idlePending := _, st := _, log := _ } []
+              (by simpa using ‹¬r.outcome.isSome = true›) hstop
+          · exact execCmdsStates_last _ _
     | workerDone s w res => rfl
     | pull => rfl
     | timer => rfl
@@ -174,7 +240,17 @@ theorem microStates_slotInv (cfg : Cfg) (hwf : cfg.WF) (pol : Policy) (P : Prop)
         split at hr'
         · simp only [List.mem_singleton] at hr'; subst hr'
           exact ⟨h.ids, fun w hw => (by cases hw), List.nodup_nil⟩
-        · obtain ⟨e1, e3⟩ := execCmdsStates_spec _ _ r' hr'
+        · have hr'' : ∃ R0 : List Worker, R0.Sublist r.running ∧ r' ∈ execCmdsStates
+              { r with buf := rest, idlePending := if t = Tick.idleCheck then false else r.idlePending,
+                       st := (reduce cfg pol t r.st r.now).1, log := r.log ++ [(t, r.now)], running := R0 }
+              (reduce cfg pol t r.st r.now).2 := by
+            split at hr'
+            · exact ⟨[], List.nil_sublist _, hr'⟩
+            · exact ⟨r.running, List.Sublist.refl _, hr'⟩
+          obtain ⟨R0, hR0, hr'⟩ := hr''
+          obtain ⟨e1, e3⟩ := execCmdsStates_spec _ _ r' hr'
+          have e3 : r'.running.Sublist (r.running ++ workersOf (reduce cfg pol t r.st r.now).2) :=
+            e3.trans (List.Sublist.append hR0 (List.Sublist.refl _))
           have hf := reduce_frame cfg hwf pol False t r.st r.now h.ids hTick.1
           have hsub0 : ∀ w ∈ r.running, w.step ∈ cfg.names ∧
               ∃ ip ∈ (r.st.workers w.step).inProg, ip.wid = w.wid ∧ (False → ip.ev = w.ev) := by
@@ -398,16 +474,31 @@ theorem microStates_linked (cfg : Cfg) (hwf : cfg.WF) (pol : Policy) (r : Runner
           simp only [Runner.finish]
           exact .abort _
         · rw [if_neg hnc] at hall ⊢
-          obtain ⟨tl, htl⟩ := execCmdsStates_head
-            { r with buf := rest, idlePending := if t = Tick.idleCheck then false else r.idlePending,
-                     st := (reduce cfg pol t r.st r.now).1, log := r.log ++ [(t, r.now)] }
-            (reduce cfg pol t r.st r.now).2
-          have hl := execCmdsStates_linked cfg (reduce cfg pol t r.st r.now).2
-            { r with buf := rest, idlePending := if t = Tick.idleCheck then false else r.idlePending,
-                     st := (reduce cfg pol t r.st r.now).1, log := r.log ++ [(t, r.now)] }
-            (fun r' hr' => (hall r' hr').safe hwf)
-          rw [htl] at hl ⊢
-          exact ⟨Moves.of_eq rfl, hl⟩
+          by_cases hstop : (reduce cfg pol t r.st r.now).2.any Cmd.stopsWorkersFirst
+          · rw [if_pos hstop] at hall ⊢
+            obtain ⟨tl, htl⟩ := execCmdsStates_head
+              { r with buf := rest, idlePending := if t = Tick.idleCheck then false else r.idlePending,
+                       st := (reduce cfg pol t r.st r.now).1, log := r.log ++ [(t, r.now)], running := [] }
+              (reduce cfg pol t r.st r.now).2
+            have hl := execCmdsStates_linked cfg (reduce cfg pol t r.st r.now).2
+              { r with buf := rest, idlePending := if t = Tick.idleCheck then false else r.idlePending,
+                       st := (reduce cfg pol t r.st r.now).1, log := r.log ++ [(t, r.now)], running := [] }
+              (fun r' hr' => (hall r' hr').safe hwf)
+            rw [htl] at hl ⊢
+            refine ⟨?_, hl⟩
+            unfold Moves
+            exact .abort _
+          · rw [if_neg hstop] at hall ⊢
+            obtain ⟨tl, htl⟩ := execCmdsStates_head
+              { r with buf := rest, idlePending := if t = Tick.idleCheck then false else r.idlePending,
+                       st := (reduce cfg pol t r.st r.now).1, log := r.log ++ [(t, r.now)] }
+              (reduce cfg pol t r.st r.now).2
+            have hl := execCmdsStates_linked cfg (reduce cfg pol t r.st r.now).2
+              { r with buf := rest, idlePending := if t = Tick.idleCheck then false else r.idlePending,
+                       st := (reduce cfg pol t r.st r.now).1, log := r.log ++ [(t, r.now)] }
+              (fun r' hr' => (hall r' hr').safe hwf)
+            rw [htl] at hl ⊢
+            exact ⟨Moves.of_eq rfl, hl⟩
     | workerDone s w res =>
       refine ⟨?_, trivial⟩
       unfold Moves Runner.step
@@ -487,5 +578,59 @@ theorem initStates_linked (cfg : Cfg) (hwf : cfg.WF) (st0 : State) (now : Int) (
             (match start with | some e => [Tick.addEvent { ev := e } none] | none => []), now := now } : Runner))
       with st := (rewind cfg st0 now).1 } (rewind cfg st0 now).2
   exact ⟨_, tl, htl, by cases timeout <;> rfl⟩
+
+/-! ## the slot choice never raises — for any table
+
+`id_candidates[0]` raises `IndexError` only when every id below `num_workers` is used; then the table has
+at least `num_workers` rows (pigeonhole on `range num_workers`, no matter how many duplicates or
+out-of-range ids the table holds) and `has_space` is false.  So no hypothesis on the table is needed. -/
+
+theorem freeIds_ne_nil_any {ss : StepState} {nw : Nat} (hlt : ss.inProg.length < nw) : freeIds ss nw ≠ [] := by
+  intro hnil
+  have hsub : List.range nw ⊆ usedIds ss := by
+    intro i hi
+    have : i ∉ freeIds ss nw := by rw [hnil]; simp
+    simp only [freeIds, List.mem_filter, not_and, Bool.not_eq_true', Bool.not_eq_false] at this
+    have := this hi
+    simpa using this
+  have := List.Nodup.length_le_of_subset (List.nodup_range) hsub
+  simp [usedIds] at this
+  omega
+
+theorem addOrEnqueue_no_crash_any (att : Attempt) (step : Nat) (ss : StepState) (nw : Nat) (now : Int) :
+    Cmd.crash ∉ (addOrEnqueue att step ss nw now).2 := by
+  unfold addOrEnqueue
+  split
+  · rename_i hlt
+    split
+    · simp
+    · rename_i hnil
+      exact absurd hnil (freeIds_ne_nil_any hlt)
+  · simp
+
+theorem drain_no_crash_any (step nw : Nat) (now : Int) :
+    ∀ (fuel : Nat) (ss : StepState), Cmd.crash ∉ (drain step nw now fuel ss).2
+  | 0, ss => by simp [drain]
+  | fuel + 1, ss => by
+    unfold drain
+    split
+    · simp
+    · split
+      · simp only [List.mem_append, not_or]
+        exact ⟨addOrEnqueue_no_crash_any _ _ _ _ _, drain_no_crash_any step nw now fuel _⟩
+      · simp
+
+theorem rewindLoop_no_crash_any (now : Int) : ∀ (cs : List StepCfg) (st : State) (cmds : List Cmd),
+    Cmd.crash ∉ cmds → Cmd.crash ∉ (rewindLoop now cs st cmds).2
+  | [], st, cmds, h => by simpa [rewindLoop] using h
+  | c :: cs, st, cmds, h => by
+    unfold rewindLoop
+    apply rewindLoop_no_crash_any
+    simp only [List.mem_append, not_or]
+    exact ⟨h, by unfold rewindStep; exact drain_no_crash_any _ _ _ _ _⟩
+
+theorem rewind_no_crash_any (cfg : Cfg) (st : State) (now : Int) : Cmd.crash ∉ (rewind cfg st now).2 := by
+  unfold rewind
+  exact rewindLoop_no_crash_any now _ st [] (by simp)
 
 end Engine
